@@ -2,7 +2,7 @@
 (second tie between model and source; the primary tie is the correspondence run of every check).
 
 Translated (Python `ast` -> Gallina text):
-  mro.py      Order.opposite, Order.merge
+  mro.py      Order.opposite, Order.merge, the issubclass fallback at the end of typeorder
   typemap.py  Candidate.sort_key, Candidate.dominates, the arity / required-keyword filter of MultiTypeMap.mro,
               the grouping loop of MultiTypeMap.mro._pull
 coq/Proofs/LeafAgree.v proves the generated definitions extensionally equal to the hand-written ones the model uses
@@ -234,6 +234,61 @@ def tr_arity(tree):
     return "Definition arity_ok_src (m : meth) (nargs : nat) (names : list nat) : bool :=\n  " + cond(target) + "."
 
 
+# ---- the class fallback at the end of typeorder ---------------------------------------------------------------------
+def tr_tail(tree):
+    """sx = issubclass(t1, t2); sy = issubclass(t2, t1); if/elif chain over sx, sy returning Order constants
+    -> cls_tail_src (s12 s21 : bool) : order   (s12 = issubclass(t1, t2), s21 = issubclass(t2, t1))"""
+    fn = None
+    for n in tree.body:
+        if isinstance(n, ast.FunctionDef) and n.name == "typeorder":
+            fn = n
+    if fn is None:
+        raise Unsupported("typeorder not found")
+    body = fn.body
+    # the trailing if-chain and the assignments just before it
+    if not isinstance(body[-1], ast.If):
+        raise Unsupported("typeorder does not end with an if chain")
+    names = {}
+    k = len(body) - 2
+    while k >= 0 and isinstance(body[k], ast.Assign) and len(body[k].targets) == 1 and isinstance(body[k].targets[0], ast.Name):
+        src = ast.unparse(body[k].value)
+        if src == "issubclass(t1, t2)":
+            names[body[k].targets[0].id] = "s12"
+        elif src == "issubclass(t2, t1)":
+            names[body[k].targets[0].id] = "s21"
+        else:
+            raise Unsupported("assignment " + src)
+        k -= 1
+    if sorted(names.values()) != ["s12", "s21"]:
+        raise Unsupported("expected the two issubclass tests before the final chain")
+
+    def cond(e):
+        if isinstance(e, ast.Name) and e.id in names:
+            return names[e.id]
+        if isinstance(e, ast.BoolOp):
+            op = " && " if isinstance(e.op, ast.And) else " || "
+            return "(" + op.join(cond(v) for v in e.values) + ")"
+        if isinstance(e, ast.UnaryOp) and isinstance(e.op, ast.Not):
+            return "negb " + cond(e.operand)
+        if isinstance(e, ast.Call) and ast.unparse(e) == "issubclass(t1, t2)":
+            return "s12"
+        if isinstance(e, ast.Call) and ast.unparse(e) == "issubclass(t2, t1)":
+            return "s21"
+        raise Unsupported(ast.unparse(e))
+
+    def stmts(b):
+        if len(b) == 1 and isinstance(b[0], ast.Return):
+            return order_const(b[0].value)
+        if len(b) >= 1 and isinstance(b[0], ast.If):
+            i = b[0]
+            els = i.orelse if i.orelse else b[1:]
+            if not els:
+                raise Unsupported("if without else")
+            return f"(if {cond(i.test)} then {stmts(i.body)} else {stmts(els)})"
+        raise Unsupported("statement in the final chain")
+    return "Definition cls_tail_src (s12 s21 : bool) : order :=\n  " + stmts([body[-1]]) + "."
+
+
 # ---- the grouping loop of MultiTypeMap.mro._pull -----------------------------------------------------------------
 def tr_pull(tree):
     """for c2 in candidates[1:]: if COND: continue else: processed.add(c2.handler); rval.append(c2)
@@ -311,6 +366,7 @@ FALLBACK = {
     "dominates": "Definition dominates_src (a b : cand) : bool := dominates a b.",
     "arity": "Definition arity_ok_src (m : meth) (nargs : nat) (names : list nat) : bool := arity_ok m nargs names.",
     "pull": "Definition grp_src (kept rest : list cand) : list cand := grp kept rest.",
+    "tail": "Definition cls_tail_src (s12 s21 : bool) : order := if s12 && s21 then SAME else if s12 then LESS else if s21 then MORE else NONE.",
 }
 
 
@@ -328,7 +384,8 @@ def regenerate():
             ("sort_key", lambda: tr_sort_key(_find(tm_tree, "Candidate", "sort_key"))),
             ("dominates", lambda: tr_dominates(_find(tm_tree, "Candidate", "dominates"))),
             ("arity", lambda: tr_arity(tm_tree)),
-            ("pull", lambda: tr_pull(tm_tree))]
+            ("pull", lambda: tr_pull(tm_tree)),
+            ("tail", lambda: tr_tail(mro_tree))]
     ok = True
     for name, job in jobs:
         try:
